@@ -6,10 +6,12 @@
 namespace {
 
 using SF = cocls::shared_future<Counted>;
-enum Ctor { C_PROMISE_FN = 0, C_FUTURE_FN_PENDING, C_FUTURE_FN_READY, C_DEFAULT_GETPROMISE, C_PROMISE_FN_THREAD, C_FUTURE_FN_THREAD, C_SHIFT_PENDING, C_SHIFT_THREAD, C_REUSE, C_NK };
+enum Ctor { C_PROMISE_FN = 0, C_FUTURE_FN_PENDING, C_FUTURE_FN_READY, C_DEFAULT_GETPROMISE, C_PROMISE_FN_THREAD, C_FUTURE_FN_THREAD, C_SHIFT_PENDING, C_SHIFT_THREAD, C_REUSE, C_CORO, C_NK };
 // shift*: init_if_needed(), a copy is taken, then `original << function returning a pending future`; the handle everybody uses is the
 // copy made BEFORE the <<, the original dies right after it
-static const char *ctor_names[] = {"promfn", "futfn", "futready", "getpromise", "promfn-thread", "futfn-thread", "shift", "shift-thread", "reuse"};
+static const char *ctor_names[] = {"promfn", "futfn", "futready", "getpromise", "promfn-thread", "futfn-thread", "shift", "shift-thread", "reuse", "coro"};
+// coro: the function returns the future of an async coroutine that is suspended on a gate; the resolver opens the gate and the
+// coroutine completes with a value or an exception (a coroutine-bound future has no promise object anybody holds)
 // reuse: a shared_future that was constructed pending and has been resolved is given a new pending future with operator<<
 // ("future is destroyed and recreated"): it is pending again and behaves like a fresh one
 // assign: the resolver move-assigns an empty promise over the one it holds; dtor: it lets the promise die. Both resolve to no-value.
@@ -64,6 +66,12 @@ static cocls::suspend_point<void> cbfn_done(cocls::awaiter *, void *p) noexcept 
     return {};
 }
 
+static cocls::async<Counted> coro_source(cocls::future<void> &gate, bool thr) {
+    co_await gate;
+    if (thr) throw TestError(77);
+    co_return Counted(42);
+}
+
 static void handle_thread(SF h, int id, int script) {
     static const char *labels[] = {"h0", "h1", "h2"};
     vrt_label(labels[id]);
@@ -107,6 +115,8 @@ static void scenario(int ctor, int rk, int nh, const int *scripts, int main_drop
     int64_t *s = vrt_scratch();
     {
         cocls::promise<Counted> saved;
+        cocls::future<void> gate;
+        cocls::promise<void> gate_p = gate.get_promise();
         std::unique_ptr<SF> sf;
         vstd::thread early_rt;  // resolver started from inside the constructor's function: races with the rest of the construction
         auto resolve_now = [rk](cocls::promise<Counted> p) {
@@ -152,6 +162,7 @@ static void scenario(int ctor, int rk, int nh, const int *scripts, int main_drop
                 orig << [&] { return cocls::future<Counted>([&](cocls::promise<Counted> p) { saved = std::move(p); }); };
                 break;
             }
+            case C_CORO: sf.reset(new SF([&] { return cocls::future<Counted>(coro_source(gate, rk == R_EXC)); })); break;
             case C_REUSE: {
                 cocls::promise<Counted> first;
                 sf.reset(new SF([&](cocls::promise<Counted> p) { first = std::move(p); }));
@@ -173,6 +184,10 @@ static void scenario(int ctor, int rk, int nh, const int *scripts, int main_drop
         rt = vstd::thread([&] {
             vrt_label("resolver");
             if (ctor == C_FUTURE_FN_READY || ctor == C_PROMISE_FN_THREAD || ctor == C_FUTURE_FN_THREAD || ctor == C_SHIFT_THREAD) return;
+            if (ctor == C_CORO) {
+                gate_p();  // the coroutine runs to its end on this thread and resolves the shared state
+                return;
+            }
             switch (rk) {
                 case R_VAL: saved(Counted(42)); break;
                 case R_EXC: saved(std::make_exception_ptr(TestError(77))); break;
@@ -226,6 +241,7 @@ VRT_REGISTER(reg_sf) {
         for (int rk = 0; rk < R_NK; rk++)
             for (int md = 0; md < 2; md++) {
                 if (rk >= R_ASSIGN && ctor == C_FUTURE_FN_READY) continue;  // nothing left to resolve
+                if (ctor == C_CORO && rk != R_VAL && rk != R_EXC) continue;     // a coroutine ends with a value or an exception
                 // one handle thread: every script
                 for (int a = 0; a < S_NK; a++) {
                     std::string name = std::string("sf1_") + ctor_names[ctor] + "_" + rk_names[rk] + "_" + sc_names[a] + (md ? "_late" : "_early");
